@@ -303,7 +303,7 @@ def _cat(
     tdtype = type(list_of_tensordicts[0])
     if dim < 0:
         dim = len(batch_size) + dim
-    if dim >= len(batch_size):
+    if dim < 0 or dim >= len(batch_size):
         raise RuntimeError(
             f"dim must be in the range 0 <= dim < len(batch_size), got dim"
             f"={dim} and batch_size={batch_size}"
@@ -384,7 +384,7 @@ def _lazy_cat(
     batch_size = list(list_of_tensordicts[0].batch_size)
     if dim < 0:
         dim = len(batch_size) + dim
-    if dim >= len(batch_size):
+    if dim < 0 or dim >= len(batch_size):
         raise RuntimeError(
             f"dim must be in the range 0 <= dim < len(batch_size), got dim"
             f"={dim} and batch_size={batch_size}"
